@@ -169,32 +169,45 @@ def handleCacheMiss (cfg : Cfg) (t0 : Int) (req : Req) (key : Str) (refs : List 
 def serveFromCache (f : Freshness) (now : Int) (stored : Entry) (ccResp : Directives) : Resp :=
   respWith stored.resp (applyStatus .hit (setAgeHeader (stripNoCacheFields stored.resp.header ccResp) f now))
 
+/-- the `revalidate:` label of handleCacheHit -/
+def revalidateProg (cfg : Cfg) (t0 : Int) (req : Req) (stored : Entry) (key : Str) (refs : List Ref)
+    (refIndex : Nat) (f : Freshness) (ccReq : Directives) (mustValidate : Bool) : Prog :=
+  Prog.origin req.method (withConditional req.header stored.resp.header) none fun ans =>
+    handleValidation cfg req.method (withConditional req.header stored.resp.header) key stored refs
+      (some refIndex) f ccReq mustValidate t0 (fixAns cfg ans) (fun r => .ret r)
+
+/-- the response of the stale-while-revalidate path -/
+def swrResponse (f : Freshness) (now : Int) (stored : Entry) (ccResp : Directives) : Resp :=
+  respWith stored.resp (applyStatus .stale (setAgeHeader (stripNoCacheFields stored.resp.header ccResp) f now))
+
+/-- validation that nothing but successful validation satisfies (roundtripper.go mustValidate) -/
+def mustValidateOf (f : Freshness) (ccReq ccResp : Directives) : Bool :=
+  ccReq.noCache || (f.isStale && ccResp.mustRevalidate) || ccResp.noCacheUnqualified
+
+/-- the stale-while-revalidate window test -/
+def inSwrWindow (f : Freshness) (now : Int) (swr : Int) : Bool :=
+  f.isStale && decide (satAdd f.ageValue (satSub now f.ageTimestamp) ≥ f.usefulLife) &&
+    decide (satAdd f.ageValue (satSub now f.ageTimestamp) < satAdd f.usefulLife swr)
+
 /-- handleCacheHit -/
 def handleCacheHit (cfg : Cfg) (t0 : Int) (req : Req) (stored : Entry) (key : Str) (refs : List Ref) (refIndex : Nat) : Prog :=
   let ccReq := parseCC req.header
   let ccResp := parseCC stored.resp.header
-  let (f, exceeded) := transportFreshness cfg.glue t0 stored ccReq ccResp
-  let mustValidate := ccReq.noCache || (f.isStale && ccResp.mustRevalidate) || ccResp.noCacheUnqualified
-  let revalidate : Prog :=
-    let condH := withConditional req.header stored.resp.header
-    Prog.origin req.method condH none fun ans =>
-      handleValidation cfg req.method condH key stored refs (some refIndex) f ccReq mustValidate t0
-        (fixAns cfg ans) (fun r => .ret r)
-  if mustValidate || exceeded then
-    (if ccReq.onlyIfCached then .ret (.resp make504) else revalidate)
-  else if !f.isStale && ccResp.immutable && !ccReq.noCache then .ret (.resp (serveFromCache f t0 stored ccResp))
-  else if ccReq.onlyIfCached || (!f.isStale && !ccReq.noCache) then .ret (.resp (serveFromCache f t0 stored ccResp))
+  let tf := transportFreshness cfg.glue t0 stored ccReq ccResp
+  let mv := mustValidateOf tf.1 ccReq ccResp
+  if mv || tf.2 then
+    (if ccReq.onlyIfCached then .ret (.resp make504)
+     else revalidateProg cfg t0 req stored key refs refIndex tf.1 ccReq mv)
+  else if !tf.1.isStale && ccResp.immutable && !ccReq.noCache then .ret (.resp (serveFromCache tf.1 t0 stored ccResp))
+  else if ccReq.onlyIfCached || (!tf.1.isStale && !ccReq.noCache) then .ret (.resp (serveFromCache tf.1 t0 stored ccResp))
   else
     match ccResp.staleWhileRevalidate with
     | some swr =>
-      let age := satAdd f.ageValue (satSub t0 f.ageTimestamp)
-      if f.isStale && age ≥ f.usefulLife && age < satAdd f.usefulLife swr then
-        let condH := withConditional req.header stored.resp.header
-        Prog.spawn (backgroundRevalidate cfg req.method condH key stored f ccReq t0)
-          (.ret (.resp (respWith stored.resp
-            (applyStatus .stale (setAgeHeader (stripNoCacheFields stored.resp.header ccResp) f t0)))))
-      else revalidate
-    | none => revalidate
+      if inSwrWindow tf.1 t0 swr then
+        Prog.spawn (backgroundRevalidate cfg req.method (withConditional req.header stored.resp.header) key stored tf.1 ccReq t0)
+          (.ret (.resp (swrResponse tf.1 t0 stored ccResp)))
+      else revalidateProg cfg t0 req stored key refs refIndex tf.1 ccReq mv
+    | none => revalidateProg cfg t0 req stored key refs refIndex tf.1 ccReq mv
 
 /-- handleUnrecognizedMethod -/
 def handleUnrecognizedMethod (cfg : Cfg) (req : Req) (key : Str) : Prog :=
